@@ -26,9 +26,10 @@ type vrandCall struct {
 }
 
 type vrandOut struct {
-	SourceIsStandIn bool        `json:"source_is_stand_in"`
-	Calls           []vrandCall `json:"calls"`
-	Delivered       int         `json:"delivered"`
+	SourceIsStandInAtEnd bool        `json:"source_is_stand_in_at_end"`
+	SourceIsStandIn      bool        `json:"source_is_stand_in"`
+	Calls                []vrandCall `json:"calls"`
+	Delivered            int         `json:"delivered"`
 }
 
 // vrandMain: worker -prop vrand "n:lang,n:lang,..." in a build where the
@@ -53,6 +54,12 @@ func vrandMain(args []string) int {
 	if len(args) > 0 && args[0] != "" {
 		ops = strings.Split(args[0], ",")
 	}
+	if len(args) > 1 {
+		// the stand-in for the OS generator goes down for good after this many bytes
+		if k, err := strconv.Atoi(args[1]); err == nil && k >= 0 {
+			vrand.SetFailAt(k)
+		}
+	}
 	type iv struct{ a, b int }
 	var used []iv
 	for _, op := range ops {
@@ -70,8 +77,12 @@ func vrandMain(args []string) int {
 		switch {
 		case pn != "":
 			c.Problem = "panic: " + pn
-		case e != nil || s == "":
-			c.Problem = fmt.Sprintf("default source never fails, yet NewMnemonic returned (%q, %v)", s, e)
+		case (e != nil) != (s == ""):
+			c.Problem = fmt.Sprintf("NewMnemonic returned both or neither of a mnemonic and an error: (%q, %v)", s, e)
+		case e != nil && vrand.Down():
+			// the source failed: failing closed is the required behaviour
+		case e != nil:
+			c.Problem = fmt.Sprintf("the default source did not fail, yet NewMnemonic returned (%q, %v)", s, e)
 		default:
 			words := strings.Split(s, ref.Sep(l))
 			ent, cs, bad := m.Decode(words, l)
@@ -100,6 +111,10 @@ func vrandMain(args []string) int {
 		out.Calls = append(out.Calls, c)
 	}
 	out.Delivered = vrand.Delivered()
+	probe2 := &countingReader{}
+	prev2 := bip39.VerifSwapRandSource(probe2)
+	bip39.VerifSwapRandSource(prev2)
+	out.SourceIsStandInAtEnd = prev2 == vrand.DefaultReader()
 	data, _ := json.Marshal(&out)
 	os.Stdout.Write(data)
 	return 0
